@@ -11,8 +11,7 @@
    Hypotheses: dict keys distinct (names_ok); for the criterion in terms of constants also nodims_sig (no array of
    interfaces: excludes exactly finding C14-connect-array-of-interfaces, refuted witness below).
    NOT proved (validated by the differential run only): WHICH error kind is reported when several defects coexist
-   (the model follows the code's order; the run compares the kind), Signature.flatten(obj) on created objects
-   = specification leaves (object level; compared in the run), jschon schema validation. *)
+   (the model follows the code's order; the run compares the kind), jschon schema validation. *)
 From Coq Require Import ZArith List Bool Permutation.
 From V.Model Require Import Bits Wiring.
 From V.Proofs Require Import WiringP.
@@ -82,23 +81,23 @@ Print Assumptions C14_create_compliant_refuted_flipped_array.
 
 (* --- connect(): every assignment it makes goes to a Signal (never a constant) and comes from the same path of
        another argument; it is only made after every argument passed is_compliant against its own signature --- *)
-Theorem C14_connect_ok_spec_partial (objs : list obj) (cs : list asg) :
+Theorem C14_connect_assignments_sound (objs : list obj) (cs : list asg) :
   connect objs = Ok cs ->
   Forall (good_asg objs) cs /\
   Forall (fun o => exists x, obj_sig o = Some x /\ is_compliant x o = Ok true) objs.
 Proof. intros H. split; [exact (connect_assignments_good objs cs H) | exact (connect_ok_compliant objs cs H)]. Qed.
-Print Assumptions C14_connect_ok_spec_partial.
+Print Assumptions C14_connect_assignments_sound.
 
 (* one lock step of connect at a path with exactly one output port member: exactly the input port members are
    assigned (per index), from that output; no output member and no other member is assigned *)
-Theorem C14_connect_step_single_output_partial objs p ms st st' o :
+Theorem C14_connect_step_single_output objs p ms st st' o :
   step objs p ms st = Ok st' ->
   filter is_sig_kind (tag_from 0 ms) = [] ->
   filter is_out_port (tag_from 0 ms) = [o] ->
   exists new, concat_res (map (connect_in objs p o) (filter is_in_port (tag_from 0 ms))) = Ok new /\
               fst (fst st') = fst (fst st) ++ new.
 Proof. exact (step_single_out objs p ms st st' o). Qed.
-Print Assumptions C14_connect_step_single_output_partial.
+Print Assumptions C14_connect_step_single_output.
 
 Example C14_connect_example :
   let inner := [(0, Port FOut (Sh 3 false) 5 []); (1, Port FIn (Sh 2 true) (-1) [2%nat])] in
@@ -140,6 +139,25 @@ Proof.
 Qed.
 Print Assumptions C14_flatten_each_leaf_once.
 
+(* --- Signature.flatten(obj) on an interface created from the signature (same hypotheses as create_compliant):
+       exactly the specification leaves, in order: every leaf once, with its effective direction --- *)
+Theorem C14_flatten_created (x : sigt) (p : path) :
+  wf_sig x = true -> safe_sig x = true ->
+  exists ls, flat_obj x (create x p) = Ok ls /\ map strip ls = spec_leaves x.
+Proof. exact (flatten_created x p). Qed.
+Print Assumptions C14_flatten_created.
+
+Example C14_flatten_created_example :
+  let x := (true, [(4, Iface FIn true [(0, Port FOut (Sh 3 false) 5 [2%nat])] []); (7, Port FIn (Sh 1 false) 0 [])]) in
+  wf_sig x = true /\ safe_sig x = true /\
+  match flat_obj x (create x [PN 9]) with
+  | Ok ls => map (fun l => (l_path l, l_flow l, l_val l)) ls
+  | Err _ => []
+  end = [([PN 4; PN 0; PI 0], FIn, OSig [PN 9; PN 4; PN 0; PI 0] (Sh 3 false) 5);
+         ([PN 4; PN 0; PI 1], FIn, OSig [PN 9; PN 4; PN 0; PI 1] (Sh 3 false) 5);
+         ([PN 7], FOut, OSig [PN 9; PN 7] (Sh 1 false) 0)].
+Proof. vm_compute. repeat split. Qed.
+
 (* --- connect on k >= 2 arguments that passed is_compliant (check_args), any signature trees:
        (1) an assignment is made exactly for: an input port member mi of argument i and an output port member mj of
            argument j at the same member path p, an index idx of its dimensions, the input leaf being a Signal;
@@ -152,7 +170,11 @@ Theorem C14_connect_ok_spec (objs : list obj) (sigs : list sigt) (cs : list asg)
   connect objs = Ok cs ->
   (forall a, In a cs <->
      exists i j p mi mj idx,
-       port_at sigs i p mi /\ is_in (m_flow mi) = true /       port_at sigs j p mj /\ is_in (m_flow mj) = false /       In idx (idx_paths (m_dims mi)) /       is_sigr (traverse objs (i, PNs p ++ idx)) = true /       a = asg_at objs i j p idx) /\
+       port_at sigs i p mi /\ is_in (m_flow mi) = true /\
+       port_at sigs j p mj /\ is_in (m_flow mj) = false /\
+       In idx (idx_paths (m_dims mi)) /\
+       is_sigr (traverse objs (i, PNs p ++ idx)) = true /\
+       a = asg_at objs i j p idx) /\
   NoDup (map fst cs) /\
   (forall a, In a cs -> forall p mo idx, port_at sigs (fst (fst a)) p mo -> is_in (m_flow mo) = false ->
         In idx (idx_paths (m_dims mo)) -> snd (fst a) <> PNs p ++ idx).
